@@ -5,6 +5,8 @@ CONSTANTS
   MaxOps = 5
   Renewals = {TRUE, FALSE}
   SessLens = {"short", "long"}
+  Forms = {"none", "token", "bearer", "phc", "basic", "jwt"}
+  Mgmt = {"token", "user", "session"}
 PROPERTIES OnlyCurrentAuthenticates SessionStillUnexpired NeverForInactiveUser UnknownNeverHeld CurrentIsHeld CurrentAuthenticates TokenGoodIffActiveAtBegin
 VIEW View
 CHECK_DEADLOCK FALSE
